@@ -226,7 +226,11 @@ pub fn check_program(db: &Db, prog: &Program, insts: &[Inst]) -> Outcome {
                     *out.undecided.entry("engine lacks INTERSECT/EXCEPT ALL (generic)".into()).or_insert(0) += insts.len() as u64;
                     continue;
                 }
-                if dn != "sqlite" && e.contains("near \"OFFSET\"") && crate::causes::offset_without_limit(sql) {
+                if dn != "sqlite" && sql.contains("UNION DISTINCT") && e.contains("near \"DISTINCT\"") {
+                    *out.undecided.entry("engine lacks UNION DISTINCT (generic)".into()).or_insert(0) += insts.len() as u64;
+                    continue;
+                }
+                if dn != "sqlite" && e.contains("syntax error") && crate::causes::offset_without_limit(sql) {
                     *out.undecided.entry("engine needs LIMIT with OFFSET (generic)".into()).or_insert(0) += insts.len() as u64;
                     continue;
                 }
